@@ -2244,6 +2244,8 @@ theorem Inv'.applyOp {c : Sys} (h : Inv' none none c.s c.now) (op : COp) :
   | setReady v => exact h.quiet (quiet_liftT _ _)
   | setFlush v => exact h.quiet (quiet_liftT _ _)
   | fault k => exact h.quiet (by quiet_rfl)
+  | faultSkip n => exact h.quiet (by quiet_rfl)
+  | selfWake b => exact h.quiet (by quiet_rfl)
   | take n => exact h.quiet (quiet_take _ _ _)
   | advance n => exact (h.mono (Nat.le_add_right _ _)).quiet (quiet_onAdvance _ _)
 
@@ -2267,6 +2269,8 @@ theorem frame_applyOp {c : Sys} (h : Inv' none none c.s c.now) (op : COp)
   | setReady v => exact (h'.quiet (quiet_liftT _ _)).fr _ rfl
   | setFlush v => exact (h'.quiet (quiet_liftT _ _)).fr _ rfl
   | fault k => rfl
+  | faultSkip n => rfl
+  | selfWake b => rfl
   | take n => exact (quiet_take _ _ _).frame
   | advance n => exact (quiet_onAdvance _ _).frame
 
@@ -2300,6 +2304,8 @@ theorem maxInFlight_applyOp {c : Sys} (h : StInv c.s c.now) (op : COp) :
   | setReady v => exact generic _ (by simp) (by simp) (by simp)
   | setFlush v => exact generic _ (by simp) (by simp) (by simp)
   | fault k => exact generic _ (by simp) (by simp) (by simp)
+  | faultSkip n => exact generic _ (by simp) (by simp) (by simp)
+  | selfWake b => exact generic _ (by simp) (by simp) (by simp)
   | take n => exact generic _ (by simp) (by simp) (by simp)
   | advance n => exact generic _ (by simp) (by simp) (by simp)
 
@@ -2428,6 +2434,8 @@ theorem stepOp_frame {c : Sys} (h : StInv c.s c.now) (op : COp) :
   | setReady v => exact generic _ (by simp) (by simp) (by simp)
   | setFlush v => exact generic _ (by simp) (by simp) (by simp)
   | fault k => exact generic _ (by simp) (by simp) (by simp)
+  | faultSkip n => exact generic _ (by simp) (by simp) (by simp)
+  | selfWake b => exact generic _ (by simp) (by simp) (by simp)
   | take n => exact generic _ (by simp) (by simp) (by simp)
   | advance n => exact generic _ (by simp) (by simp) (by simp)
 
